@@ -30,7 +30,7 @@ TJXOP = list(range(8))
 def gen_thread(rng, tid, nops, big):
     """one thread's operation list (strings); only its own handles/slots"""
     ops = []
-    lim = 96 if big else 48
+    lim = 160 if big else 48
 
     def dim():
         return rng.choice([1, 7, 8, 15, 16, 17, 31, 33, rng.range(1, lim), rng.range(1, lim)])
@@ -172,17 +172,78 @@ def parse_inventory(path):
 ALLOW = {("src/turbojpeg.c", "_tjInitCompress", "buffer")}
 
 
+EXPECTED_ENV = [
+    ("GETENV_S", "simd/x86_64/jsimd.c", "init_simd", "JSIMD_FORCEAVX2", ""),
+    ("GETENV_S", "simd/x86_64/jsimd.c", "init_simd", "JSIMD_FORCENONE", ""),
+    ("GETENV_S", "simd/x86_64/jsimd.c", "init_simd", "JSIMD_FORCESSE2", ""),
+    ("GETENV_S", "simd/x86_64/jsimd.c", "init_simd", "JSIMD_NOHUFFENC", ""),
+    ("GETENV_S", "src/jmemmgr.c", "jinit_memory_mgr", "JPEGMEM", ""),
+    ("PUTENV_S", "src/turbojpeg.c", "processFlags", "JSIMD_FORCEMMX", "flags & TJFLAG_FORCEMMX"),
+    ("PUTENV_S", "src/turbojpeg.c", "processFlags", "JSIMD_FORCESSE", "flags & TJFLAG_FORCESSE"),
+    ("PUTENV_S", "src/turbojpeg.c", "processFlags", "JSIMD_FORCESSE2", "flags & TJFLAG_FORCESSE2"),
+    ("getenv", "src/jinclude.h", "GETENV_S", "", ""),
+    ("setenv", "src/jinclude.h", "PUTENV_S", "", ""),
+]
+ENV_FUNCS = {"setenv", "putenv", "unsetenv", "clearenv", "_putenv_s", "PUTENV_S", "getenv", "secure_getenv", "getenv_s", "GETENV_S"}
+OTHER_LIBC = {("exit", "error_exit"), ("stderr", "output_message")} | {("strerror", "tj3%sImage%d" % (a, b))
+                                                                      for a in ("Load", "Save") for b in (8, 12, 16)}
+
+
 def diagnose(ctx, ents, gen_path):
-    """name the inventory entries that make the theorems fail (for the replay file)"""
+    """name the generated facts that make the theorems fail (for the log and the replay file);
+    mirrors the boolean judgements of model/Globals.v + proofs/GlobalsProofs.v"""
     bad = []
+    txt = open(gen_path).read()
     for e in ents:
         k = (e["file"], e["fn"], e["name"])
         if e["cls"] in ("MutableWritten", "AddressEscapes") and k not in ALLOW:
             bad.append("%s %s%s in %s : %s" % (e["cls"], e["name"], ("@" + e["fn"]) if e["fn"] else "", e["file"], e["text"][-300:]))
+        elif e["cls"] == "MutableWritten":
+            bad.append("allow-listed object is now written: " + e["text"][-300:])
+    for m in re.finditer(r'mk_esc "([^"]*)" "([^"]*)" "([^"]*)" \[([^\]]*)\] \[([^\]]*)\] \((-?\d+)\) \[([^\]]*)\]', txt):
+        name, f, fn, direct, alias, fnb, callees = m.groups()
+        if (f, fn, name) not in ALLOW:
+            continue
+        why = []
+        d = re.findall(r'"([^"]*)"', direct)
+        if len(d) != 1 or not d[0].startswith("init-local:"):
+            why.append("direct uses %s (expected exactly one init-local)" % d)
+        if int(fnb) != 0:
+            why.append("%s itself has %s byte lvalues" % (fn, fnb))
+        au = re.findall(r'\("([^"]*)", "([^"]*)"\)', alias)
+        cs = {c: (int(a), int(b)) for c, a, b in re.findall(r'\("([^"]*)", \((-?\d+)\), \((-?\d+)\)\)', callees)}
+        if not au:
+            why.append("no alias use recorded")
+        for l, how in au:
+            mm = re.match(r"addr-arg\d:(.+)$", how)
+            if not mm or cs.get(mm.group(1)) != (0, 0):
+                why.append("alias %s used as %s; callee summary (byte lvalues, byte-pointer args) = %s" % (l, how, cs.get(mm.group(1)) if mm else None))
+        if why:
+            bad.append("dummy buffer %s@%s no longer provably untouched: %s" % (name, fn, "; ".join(why)))
     tls = sorted((e["file"], e["name"]) for e in ents if e["cls"] == "Tls")
     exp = [("simd/x86_64/jsimd.c", "simd_huffman"), ("simd/x86_64/jsimd.c", "simd_support"), ("src/turbojpeg.c", "errStr")]
     if tls != exp:
         bad.append("thread-local objects are %s, expected %s" % (tls, exp))
+    sites = [tuple(x.replace('""', '"') for x in m.groups()) for m in
+             re.finditer(r'mk_libc "((?:[^"]|"")*)" "((?:[^"]|"")*)" "((?:[^"]|"")*)" "((?:[^"]|"")*)" "((?:[^"]|"")*)"', txt)]
+    envs = [s for s in sites if s[0] in ENV_FUNCS]
+    for s in envs:
+        if s not in EXPECTED_ENV:
+            bad.append("unexpected environment access: %s(%s) in %s (%s) guard [%s]" % (s[0], s[3], s[2], s[1], s[4]))
+    for s in EXPECTED_ENV:
+        if s not in envs:
+            bad.append("expected environment access is gone: %s(%s) in %s" % (s[0], s[3], s[2]))
+    for s in sites:
+        if s[0] not in ENV_FUNCS and (s[0], s[2]) not in OTHER_LIBC:
+            bad.append("new use of process-global libc state: %s in %s (%s)" % (s[0], s[2], s[1]))
+    m = re.search(r"Definition env_writer_callers[^\[]*\[([^\]]*)\]", txt)
+    if m:
+        for c, f in re.findall(r'\("([^"]*)", "([^"]*)"\)', m.group(1)):
+            if c.startswith("tj3") or f != "processFlags":
+                bad.append("environment writer %s is now called from %s" % (f, c))
+    m = re.search(r"Definition asm_writable_data[^\[]*\[([^\]]*)\]", txt)
+    if m and m.group(1).strip():
+        bad.append("asm data outside SEG_TEXT/SEG_CONST: " + " ".join(m.group(1).split())[:300])
     return bad
 
 
@@ -203,9 +264,13 @@ def binary_crosscheck(ctx, lib, ents):
             if m:
                 member, secs = m.group(1), {}
                 continue
-            m = re.match(r"\s*\[\s*(\d+)\]\s+(\S+)\s+(\S+)\s+\S+\s+\S+\s+\S+\s+\S+\s+(\S*)\s", l)
+            m = re.match(r"\s*\[\s*(\d+)\]\s+(\S+)\s+(\S+)\s+\S+\s+\S+\s+([0-9a-f]+)\s+\S+\s+(\S*)\s", l)
             if m:
-                secs[m.group(1)] = (m.group(2), m.group(4) if not m.group(4).isdigit() else "")
+                fl = m.group(5) if not m.group(5).isdigit() else ""
+                secs[m.group(1)] = (m.group(2), fl)
+                if member.endswith(".asm.o") and "W" in fl and "A" in fl and int(m.group(4), 16) > 0:
+                    ctx.broken_tie("binary-crosscheck", "NASM object %s(%s) has a writable data section %s of %d bytes"
+                                   % (a, member, m.group(2), int(m.group(4), 16)))
                 continue
             m = re.match(r"\s*\d+:\s+\S+\s+(\d+)\s+(OBJECT|TLS|NOTYPE)\s+(\S+)\s+\S+\s+(\d+)\s+(\S+)", l)
             if not m:
@@ -242,7 +307,7 @@ def run(ctx):
         for b in bad[:6]:
             ctx.log("inventory:", b)
         if bad:
-            ctx.broken_tie("globals_are_benign", "static-storage objects that are written / escape / lost THREAD_LOCAL: " + " || ".join(bad[:6]))
+            ctx.broken_tie("inventory", "generated facts that break globals_are_benign / env_sites: " + " || ".join(bad[:6]))
     ctx.cov["inventory_entries"] = len(ents)
     ctx.cov["inventory_classes"] = {c: sum(1 for e in ents if e["cls"] == c) for c in sorted(set(e["cls"] for e in ents))}
     if ents:
@@ -264,17 +329,17 @@ def run(ctx):
             lines = [l.strip() for l in open(os.path.join(cdir, fn)) if l.strip()]
             run_program(ctx, exe_t, "tsan", lines, {}, "corpus")
     nt = 8
-    n_tsan = ctx.n(len(ENVS), 40)
+    n_tsan = ctx.n(20, 150)
     for i in range(n_tsan):
         env = ENVS[i % len(ENVS)]
-        lines = gen_program(rng.fork(), nt, ctx.n(14, 40), False)
+        lines = gen_program(rng.fork(), nt, ctx.n(30, 60), i % 2 == 1)
         run_program(ctx, exe_t, "tsan", lines, env, "tsan-threads")
         if i == 0:
             ctx.sample({"env": env, "program_head": lines[:12]})
-    n_plain = ctx.n(len(ENVS), 60)
+    n_plain = ctx.n(20, 200)
     for i in range(n_plain):
         env = ENVS[i % len(ENVS)]
-        lines = gen_program(rng.fork(), ctx.n(8, 16), ctx.n(40, 120), True)
+        lines = gen_program(rng.fork(), ctx.n(8, 16), ctx.n(80, 160), True)
         run_program(ctx, exe_s, "simd", lines, env, "simd-threads")
     ctx.cov["rule"] = ("programs of 8 (thorough: up to 16) threads x random operation lists (compress 8/12/16-bit lossy/lossless/progressive/"
                        "arithmetic/optimised/restart, decompress with scaling/pixel formats, transform, YUV encode/decode, failing header parses "
